@@ -17,6 +17,7 @@ from vlib.vsym import SymReal, lift, rv, zbool
 
 PID = "C18"
 EXCH = {"EX_A_e": "reactant", "EX_B_e": "product"}     # A_e -->   |   --> B_e
+DROP = 1e-7     # the solver tolerance configured by vlib/env.py: minimal_medium ignores import fluxes below it
 
 
 def _model(E, sym=("EX_A_e", "EX_B_e", "SK_A"), delta=None):
@@ -144,7 +145,12 @@ def c18_minimal_medium(E, sym=("EX_A_e", "EX_B_e")):
             v = med[k]
             tot = tot + z3.If(lift(v) > 0, lift(v), 0)
     E.prove(set(med.index) <= set(EXCH), "medium-lists-exchanges-only", got=list(med.index))
-    E.prove(E.eq(tot, best), "total-import-minimal")
+    # documented: import fluxes below the solver tolerance are ignored (_as_medium) - the listed total may fall short
+    # of the LP minimum by at most that much per exchange
+    if E.symbolic:
+        E.prove(z3.And(lift(tot) <= lift(best), lift(tot) >= lift(best) - rv(len(EXCH) * DROP)), "total-import-minimal")
+    else:
+        E.prove(E.eq(tot, best), "total-import-minimal")
     if not exports:
         E.prove(E.all_of([lift(med[k]) > 0 for k in med.index]), "imports-positive")
     # sufficiency: with the returned imports as the medium the requested objective value is attainable
@@ -155,6 +161,7 @@ def c18_minimal_medium(E, sym=("EX_A_e", "EX_B_e")):
             n = 1000 if oe is True else oe
         val = med[rid] if rid in med.index else 0
         val = _If(lift(val) > 0, val, 0) if not isinstance(val, (int, float)) else max(val, 0)
+        val = val + DROP        # an import the result ignored as below tolerance may still be needed
         if kind == "reactant":
             lp2.lb[rid] = -val if not isinstance(val, (int, float)) else -val
             if n is not None:
@@ -170,8 +177,15 @@ def c18_minimal_medium(E, sym=("EX_A_e", "EX_B_e")):
         if recs:
             rec = recs[-1]
             wit = {w[r.id]: rec["x"][r.id] - rec["x"][r.reverse_id] for r in m.reactions}
-    E.prove_exists(list(w.values()), z3.And(lp2.feasible(w), w["DM_C"] >= lift(g) - (rv(E.tol) if not E.symbolic else 0)),
+    # on GLPK replays "sufficient" is meant up to the solver's feasibility tolerance (an instance infeasible by 1e-7
+    # in exact arithmetic is feasible for GLPK)
+    E.prove_exists(list(w.values()), z3.And(lp2.feasible(w, slack=(0 if E.symbolic else 1e-6)),
+                                            w["DM_C"] >= lift(g) - (rv(E.tol) if not E.symbolic else 0)),
                    "medium-is-sufficient", witness=wit)
+
+
+def c18_minimal_medium_wide(E):
+    return c18_minimal_medium(E, sym=("EX_A_e", "EX_B_e", "SK_A", "DM_C"))
 
 
 HARNESSES = [
@@ -182,4 +196,6 @@ HARNESSES = [
       thorough=dict(max_paths=200000, time_budget=400),
       bounds="T5; bounds of both exchanges symbolic (0 or |b|>=1e-2); min_objective_value symbolic in [0.01,12]; open_exchanges "
              "False/True/5; exports on/off; minimize_components=False only"),
+    H("c18_minimal_medium_wide", c18_minimal_medium_wide, tiers=("thorough",), thorough=dict(max_paths=200000, time_budget=500),
+      bounds="as c18_minimal_medium with the bounds of both exchanges, the sink and the demand symbolic"),
 ]
